@@ -22,7 +22,7 @@ ASSUMPTIONS = ["cube ⊆ cube by bit algebra, cube ⊆ union by exact cover (sel
                "`in` may raise TypeError when a non-contiguous wildcard or a group reference is an "
                "operand (documented); any other exception is a violation"]
 REQUIRED = ["true_contained", "false_not_contained", "nc_pair_contained", "group_member_in",
-            "group_items_true"]
+            "group_items_true", "relined_answer_changed"]
 
 
 def addresses(seed):
@@ -63,6 +63,7 @@ def units(tier, seed):
             out.append(dict(kind="groups", platform=plat, k=k))
         out.append(dict(kind="items", platform=plat))
         out.append(dict(kind="items_ordered", platform=plat))
+        out.append(dict(kind="relined", platform=plat))
     return out
 
 
@@ -86,6 +87,8 @@ def run_unit(unit, ctx):
         _groups(unit, ctx)
     elif unit["kind"] == "items_ordered":
         _items_ordered(unit, ctx)
+    elif unit["kind"] == "relined":
+        _relined(unit, ctx)
     else:
         _items(unit, ctx)
 
@@ -195,6 +198,53 @@ def _groups(unit, ctx):
         for x in xs:
             _group_case(unit["platform"], x, list(members), ctx)
     ctx.sample("group", dict(platform=unit["platform"], k=unit["k"]))
+
+
+def _relined(unit, ctx):
+    """Two-step histories on ONE object: ask, re-point the member (line / prefix setter), ask
+    again; the second answer must be the one a fresh object gives."""
+    from cisco_acl import AddrGroup, Address, AddressAg
+
+    plat = unit["platform"]
+    adrs = [a for a in addresses(ctx.seed) if not a.is_nc and _ag_spelling(a, plat)]
+    pool = [adrs[i] for i in (8, 16, 24, 25, 30, 32, 33, 36, 41)]
+    head = "object-group network G" if plat == "ios" else "object-group ip address G"
+    for a, b, m1, m2 in product(pool, pool, pool[:4], pool[4:7]):
+        if a is b:
+            continue
+        ctx.ev()
+        case = dict(kind="relined", platform=plat, first=_ag_spelling(a, plat), then=_ag_spelling(b, plat),
+                    members=[_ag_spelling(m1, plat), _ag_spelling(m2, plat)])
+        try:
+            grp = AddrGroup(head + "\n " + _ag_spelling(m1, plat) + "\n " + _ag_spelling(m2, plat),
+                            platform=plat)
+            x = AddressAg(_ag_spelling(a, plat), platform=plat)
+            first = x in grp
+            x.line = _ag_spelling(b, plat)
+            second = x in grp
+            # the same with a member of the group re-pointed in place
+            grp.items[0].line = _ag_spelling(a, plat)
+            third = AddressAg(_ag_spelling(b, plat), platform=plat) in grp
+            # Address.subnet_of after re-pointing the bottom
+            y = Address(a.spellings(plat)[0][0], platform=plat)
+            top = Address(m1.spellings(plat)[0][0], platform=plat)
+            y.subnet_of(top)
+            y.line = b.spellings(plat)[0][0]
+            fourth = y.subnet_of(top)
+        except Exception as ex:  # noqa
+            ctx.viol("relined:exception", case, repr(ex), "answers")
+            continue
+        want1 = any(S.cube_subset(a.cubes[0], m.cubes[0]) for m in (m1, m2))
+        want2 = any(S.cube_subset(b.cubes[0], m.cubes[0]) for m in (m1, m2))
+        want3 = any(S.cube_subset(b.cubes[0], m.cubes[0]) for m in (a, m2))
+        want4 = S.cube_subset(b.cubes[0], m1.cubes[0])
+        if (bool(first), bool(second), bool(third), bool(fourth)) != (want1, want2, want3, want4):
+            ctx.viol("relined:stale_answer_after_reassignment", case,
+                     [bool(first), bool(second), bool(third), bool(fourth)], [want1, want2, want3, want4])
+        elif want1 != want2:
+            ctx.out("relined_answer_changed")
+            ctx.nt((plat, case["first"], case["then"], tuple(case["members"])))
+    ctx.sample("relined", dict(platform=plat))
 
 
 def _items_ordered(unit, ctx):
